@@ -17,7 +17,7 @@
     (binary only, outside the model of this branch: pops served by BLPOP/BRPOP are not logged,
     EVALSHA is logged by hash.) *)
 From Ferrous Require Import Base.Bytes Generated Model.Resp Model.Types Model.Strings Model.Server
-  Model.Conn Model.Aof Proofs.ConnFacts Proofs.ServerFacts Proofs.AofFacts.
+  Model.Conn Model.Aof Proofs.ConnFacts Proofs.ServerFacts Proofs.AofFacts Proofs.AofTimeFacts.
 Open Scope Z_scope.
 
 (** ---- 1. the file is at all times a sequence of complete RESP command frames ---- *)
@@ -89,9 +89,10 @@ Proof. exact unlogged_writers_not_inert. Qed.
     zero TTL), re-executing the file in order on an empty server yields database 0 of the
     live server: same keys, same values, same deadlines - a fortiori the same [dataset]
     (values and TTL presence).
-    Clock: the history and the redo are taken at one clock reading [now] (any); deadlines
-    are logged as relative TTLs, so a redo at a later time restores TTL presence, not the
-    deadline (class expired-unlogged covers what goes wrong when a key does expire). *)
+    Clock: here the history and the redo are taken at one clock reading [now] (any) and the
+    databases are EQUAL, deadlines included; c11_replay_any_time below lets every event and
+    the redo have their own reading and concludes equality of [dataset] (deadlines are logged
+    as relative TTLs; class expired-unlogged covers what goes wrong when a key does expire). *)
 Theorem c11_replay :
   forall now h,
   forallb ev_ok h = true -> fresh_replay now (aof_log (run_evs now h)) = true ->
@@ -108,6 +109,45 @@ Example c11_replay_sample :
   forallb ev_ok sample_history = true /\ fresh_replay 0 (aof_log (run_evs 0 sample_history)) = true /\
   len (aof_log (run_evs 0 sample_history)) = 7 /\ len (d_data (get_db (run_evs 0 sample_history) 0)) = 4.
 Proof. exact sample_history_ok. Qed.
+
+(** ---- 4b. the replay theorem with a clock ---- *)
+(** One command at two clock readings: on databases that agree on keys, values and TTL
+    presence ([sim]) and hold no expired entry at their respective readings, every command of
+    the modelled dispatch except the four that stamp the clock into the value (XGROUP,
+    XREADGROUP, XACK, XCLAIM: delivery times of pending entries) yields databases that agree
+    again.  All 29 string/key commands, all 31 list/set/hash commands, XADD / XTRIM / XDEL,
+    the stream reads and the SCAN family, FLUSHALL. *)
+Theorem c11_clock_invisible_without_expiry :
+  forall t1 t2 d1 d2 parts o,
+  mem_name (cmd_name parts) clocked_cmds = false ->
+  sim d1 d2 -> fresh t1 d1 = true -> fresh t2 d2 = true ->
+  sim (step_db0 t1 d1 parts o) (step_db0 t2 d2 parts o).
+Proof. exact step_db0_sim. Qed.
+(** For EVERY history with a clock reading per event (connections, MULTI/EXEC, DISCARD,
+    WATCH aborts, refused commands, as in c11_replay) over the domain [timeless] (= [cmd_ok]
+    minus the four clock-stamping group commands), and a redo at ANY reading [now']:
+    if no entry has expired at the moment a command runs - live ([live_fresh], along the
+    executed commands [trace_of h], each at its event's reading) and in the redo ([redo_fresh]) -
+    then the file is exactly the logged commands of the trace and re-executing it yields the
+    live dataset: same keys, same values, same TTL presence.  (Deadlines differ: relative TTLs.) *)
+Theorem c11_replay_any_time :
+  forall h now',
+  forallb (fun te => ev_okT (snd te)) h = true ->
+  live_fresh (trace_of h) empty_db = true ->
+  redo_fresh now' (logged_of (trace_of h)) empty_db = true ->
+  aof_log (run_tevs h) = logged_of (trace_of h) /\
+  dataset (get_db (replay now' (aof_log (run_tevs h))) 0) = dataset (get_db (run_tevs h) 0).
+Proof. exact replay_any_time. Qed.
+(** non-vacuity: events spread over an hour, three TTLs, a transaction run an hour after it
+    was queued, the redo a day later: hypotheses hold, six commands in the file, and the two
+    databases are NOT equal (deadlines) although their datasets are *)
+Example c11_replay_any_time_sample :
+  forallb (fun te => ev_okT (snd te)) sample_timed = true /\
+  live_fresh (trace_of sample_timed) empty_db = true /\
+  redo_fresh 86400000 (logged_of (trace_of sample_timed)) empty_db = true /\
+  len (logged_of (trace_of sample_timed)) = 6 /\
+  get_db (replay 86400000 (aof_log (run_tevs sample_timed))) 0 <> get_db (run_tevs sample_timed) 0.
+Proof. exact sample_timed_ok. Qed.
 
 (** ---- 5. refutations: one witness per class ---- *)
 Theorem c11_unlogged_getset_refuted :
